@@ -20,9 +20,9 @@ RULE = ("exhaustive: every string column of length <= n over {'', 'a', ',', '\"'
         "alternately as (V,1)/(1,V)/(a,b) (quick n<=3, thorough n<=4); columns of length n+1 with one rotating grid "
         "point each (quick: every third of them); then seeded random columns up to 40 rows over a 14-piece alphabet with random partitions, general "
         "(non-partition, even non-monotone) boundary lists, HDF5 and memory sources/destinations; a kernel-level stream "
-        "calling _apply_spans_concat_2 directly with arbitrary sp_start/dest_start_v/limits; and a small stream with value "
-        "buffers below the admitted size, run only interpreted / bounds-checked (an out-of-bounds write under the JIT "
-        "cannot be observed safely). Non-trivial = the model run makes >= 2 kernel calls or some span joins >= 2 non-empty "
+        "calling _apply_spans_concat_2 directly with arbitrary sp_start/dest_start_v/limits; and a stream with value "
+        "buffers smaller than twice the longest span output (these always execute the kernel's Python source, because "
+        "an out-of-bounds write under the JIT — the behaviour before fix NC16b — cannot be observed safely). Non-trivial = the model run makes >= 2 kernel calls or some span joins >= 2 non-empty "
         "entries or quotes an entry; distinct = distinct case line.")
 ASSUMPTIONS = ["IndexedString fields store UTF-8 bytes in values and running offsets in indices; write_part on "
                "dest.indices / dest.values appends (C01); the harness re-reads target.indices/values and compares them with "
@@ -37,13 +37,15 @@ TECHNIQUE = ("Lean 4 theorems about an executable model of the kernel and the ba
              "memory safety and termination, for all inputs) + differential correspondence of the compiled model with the "
              "real code + Python rendering of the specification as oracle")
 LEVEL_TEXT = ("proved for all inputs: for every string column, every list of span boundaries within the column, every "
-              "src_chunksize >= 1 and every value buffer dest_chunksize*chunksize_mult at least twice the longest span "
-              "output, the model of Session.apply_spans_concat (with the D25 and NC16a fixes) returns without error, stores "
-              "exactly the CSV-joined non-empty entries of each span and their offsets, hence the same for all admitted "
-              "batch settings; reading a stored entry back as a CSV line returns the span's non-empty strings")
+              "src_chunksize >= 1 and every dest_chunksize, chunksize_mult, the model of Session.apply_spans_concat (with "
+              "the D25, NC16a and NC16b fixes) returns without error or out-of-range access, stores exactly the CSV-joined "
+              "non-empty entries of each span and their offsets, hence the same for all batch settings; reading a stored "
+              "entry back as a CSV line returns the span's non-empty strings")
 LEVEL_NOTE = ("the theorems are about the hand-written model Exetera.Concat (tied to the code by the correspondence run); "
-              "bytes are an abstract alphabet with decidable equality; the as-found variant of the batch loop (D25, NC16a) "
-              "is kept with kernel-checked witnesses so a regression is reported with a replay")
+              "bytes are an abstract alphabet with decidable equality; offsets and span boundaries are naturals; the "
+              "as-found variant of the operation (D25, NC16a, NC16b) is kept with kernel-checked witnesses so a regression "
+              "is reported with a replay; the empty source column is outside the theorem's reach only through D2 (C01): "
+              "its indices array is [] instead of [0]")
 EXPLANATION = ""
 
 SEP, DELIM = 44, 34
@@ -137,20 +139,20 @@ def max_out(case):
     return max([len(o) for o in outs] + [0])
 
 
-def holds_one_span(case):
-    """the literal reading of the precondition: the value buffer can hold the longest span output"""
-    return case["op"] == "concat_session" and case["sc"] >= 1 and bool(case["strs"] or len(case["spans"]) < 2) \
-        and max_out(case) <= case["dc"] * case["mult"]
+def buffer_admitted_as_found(case):
+    """before the NC16b repair the operation was only safe when no span output exceeded half the value buffer"""
+    return max_out(case) <= (case["dc"] * case["mult"]) // 2
 
 
 def admitted(case):
-    """the property's precondition as DESIGN.md fixes it (and as Props.C16.concat_eq_spec assumes it): no span output is
-    longer than half the value buffer, chunk sizes are positive"""
+    """the property's precondition: a positive source chunk size and span boundaries inside a column that has an
+    indices array (the empty indexed field stores indices = [] — D2, C01 — so there is no indices[0] to read).
+    Since the NC16b repair there is no condition on dest_chunksize / chunksize_mult any more."""
     if case["op"] != "concat_session":
         return True
     if not case["strs"] and len(case["spans"]) >= 2:
-        return False      # the empty target has no indices[0] to read (D2, C01): spans over it are outside the property
-    return case["sc"] >= 1 and max_out(case) <= (case["dc"] * case["mult"]) // 2
+        return False
+    return case["sc"] >= 1
 
 
 # ------------------------------------------------------------------------------------------------------------------
@@ -266,7 +268,8 @@ def gen_cases(tier, rng):
         cases.append({"op": "concat_kernel", "strs": strs, "spans": spans, "cap_i": cap_i, "cap_v": cap_v, "max_i": max_i,
                       "max_v": max_v, "sp_start": sp_start, "dest_start_v": rng.choice([0, 0, 1, 7, 1000]),
                       "index0": rng.choice([0, 0, 5]), "_n": t})
-    # below the admitted buffer size: only run interpreted / bounds-checked (select_for_mode + impl guard)
+    # value buffers smaller than twice the longest span output (down to 0): fine since the NC16b repair grows the buffer;
+    # before it the kernel wrote out of bounds, so these cases always run the kernel's Python source (impl: `unsafe`)
     nbad = 150 if tier == "quick" else 1500
     for t in range(nbad):
         n = rng.randrange(1, 8)
@@ -328,9 +331,10 @@ def impl(case):
     made = []
     swapped = None
     if case.get("unsafe") and hasattr(ops._apply_spans_concat_2, "py_func"):
-        # outside the property's precondition the kernel writes/reads out of bounds: under the JIT that is silent heap
-        # damage, not an observable result. Such cases always run the kernel's own Python source (the dispatcher's
-        # py_func — exactly what USE_NUMBA=false executes), wrapped from outside; nothing in the repo is changed.
+        # cases on which the code before the NC16b repair (or outside the precondition: empty target, D2) writes/reads
+        # out of bounds: under the JIT that is silent heap damage, not an observable result. Such cases always run the
+        # kernel's own Python source (the dispatcher's py_func — exactly what USE_NUMBA=false executes), wrapped from
+        # outside; nothing in the repo is changed.
         swapped = ops._apply_spans_concat_2
         ops._apply_spans_concat_2 = swapped.py_func
 
@@ -398,7 +402,7 @@ def compare(case, io, mo, mode):
         af = mo.get("as_found", {}).get("ok")
         hint = ""
         if af and io["indices"] == af["indices"] and io["values"] == af["values"]:
-            hint = "  [impl equals the AS-FOUND model variant: regression of fix D25/NC16a]"
+            hint = "  [impl equals the AS-FOUND model variant: regression of fix D25/NC16a/NC16b]"
         return f"impl indices={io['indices']} values={io['values']}  model indices={m['indices']} values={m['values']}{hint}"
     return None
 
@@ -409,12 +413,7 @@ def check_spec(case, io, mode):
     ok_pre = admitted(case)
     if "err" in io:
         if not ok_pre and io["err"] == "index_error":
-            if holds_one_span(case):
-                # NC16b: the buffer could hold every single span output, but the kernel does not check the room left
-                return (f"raised index_error although the value buffer ({case['dc'] * case['mult']} bytes) can hold the "
-                        f"longest span output ({max_out(case)} bytes): the kernel only ends a batch once half the buffer "
-                        f"is used and never checks the room left (out-of-bounds write under the JIT)")
-            return None     # outside the property's precondition under any reading: the interpreted code may refuse
+            return None     # outside the property's precondition the code may refuse
         return f"raised {io['err']} ({io.get('msg', '')}) instead of storing the concatenated spans"
     entries = enc(case["strs"])
     outs = concat_spec(entries, case["spans"])
@@ -440,11 +439,7 @@ def check_spec(case, io, mode):
 
 
 def match_finding(case, io, mode):
-    """D25 and NC16a are repaired (their fixed: entries suppress nothing). NC16b (open): IndexError / out-of-bounds write
-    exactly when some span output is longer than half the value buffer although the buffer could hold it."""
-    if case["op"] == "concat_session" and io.get("err") == "index_error" and holds_one_span(case) and not admitted(case):
-        return "NC16b"
-    return None
+    return None     # no open finding for C16: D25, NC16a and NC16b are repaired (fixed: entries suppress nothing)
 
 
 def batches(mo):
@@ -468,8 +463,8 @@ def classify(case, mo):
     tags = []
     b = batches(mo)
     tags.append("batches:%s" % (b if b < 4 else "4+"))
-    if case.get("unsafe"):
-        tags.append("below-admitted-buffer")
+    if case["op"] == "concat_session" and case["strs"] and not buffer_admitted_as_found(case):
+        tags.append("buffer-grown(NC16b)")
     if mo and "err" in mo:
         tags.append("model-err:" + mo["err"])
     entries = enc(case["strs"])
